@@ -160,7 +160,15 @@ def build_driver(name, variant, extra_src=(), extra_flags=(), guard=True):
 
 
 def workdir(name):
-    d = os.path.join(BUILD, "work", name)
+    """A scratch directory private to this process (checks of different tiers/seeds may run side by side);
+    directories left by processes that no longer exist are removed."""
+    base = os.path.join(BUILD, "work")
+    os.makedirs(base, exist_ok=True)
+    for d in os.listdir(base):
+        stem, _, pid = d.rpartition(".")
+        if (stem == name and pid.isdigit() and not os.path.exists("/proc/" + pid)) or d == name:
+            shutil.rmtree(os.path.join(base, d), ignore_errors=True)
+    d = os.path.join(base, "%s.%d" % (name, os.getpid()))
     shutil.rmtree(d, ignore_errors=True)
     os.makedirs(d, exist_ok=True)
     return d
